@@ -43,15 +43,20 @@ def _apply(op, a, b):
 
 
 class Builder:
-    def __init__(self, params=None, var_attrs=None, share_scalars=False):
+    def __init__(self, params=None, var_attrs=None, share_scalars=False, duplicate_variables=False):
         self.params = dict(params or {})      # name -> initial value
         self.var_attrs = var_attrs or {}      # name -> dict(lb=, ub=, domain=)
         self.named = {}
         self.memo = {}
         self.share_scalars = share_scalars
+        # "factory style": every mention of a scalar variable creates a NEW Variable object of that name
+        # (optyx identifies variables by name; the same declaration may legitimately exist as several objects)
+        self.duplicate_variables = duplicate_variables
 
     # -- named objects
     def variable(self, name):
+        if self.duplicate_variables:
+            return Variable(name, **self.var_attrs.get(name, {}))
         if ("var", name) not in self.named:
             self.named[("var", name)] = Variable(name, **self.var_attrs.get(name, {}))
         return self.named[("var", name)]
@@ -190,6 +195,8 @@ class Builder:
             return np.array(a[::-1])[::-1]
         if layout == "int":
             return np.array(r[1])              # integer dtype when the data are integers
+        if layout in ("int32", "uint8", "bool", "float32"):
+            return np.array(r[1], dtype=layout)   # the data must be exactly representable in that dtype
         return a
 
     def _lst(self, r):
@@ -247,6 +254,8 @@ class Builder:
             big = np.zeros((a.shape[0] * 2, a.shape[1] * 2))
             big[::2, ::2] = a
             return big[::2, ::2]
+        if layout == "int":
+            return np.array(r[1])
         return a
 
     def _lst2(self, r):
